@@ -36,7 +36,9 @@ def scaffolds_a(tier):
 
 
 def scaffolds_b(style):
-    return [
+    # (TPF naming) a second scaffold that is a further piece of the first scaffold's first contig: one sequence name in two scaffolds
+    remnants = [("scaffold_2", (("F", "scaffold_1.c1", 501, 500 + ln, 1),)) for ln in (1, 2, 9)] if style == "tpf" else []
+    return remnants + [
         ("scaffold_2", pv.scaffold_rows(style, "scaffold_2", (1,), (), (1,))),
         ("scaffold_2", pv.scaffold_rows(style, "scaffold_2", (2,), (), (1,))),
         ("scaffold_2", pv.scaffold_rows(style, "scaffold_2", (3,), (), (1,))),
@@ -261,3 +263,4 @@ CHECK = C08()
 # scope added in later rounds, kept in the evidence text
 CHECK.rule += " Mixed-name family: inputs of 2-3 scaffolds that mix haplotype-prefixed names (hap1_scaffold_1, HAP2_SCAFFOLD_3) with plain ones, every order; prefixed scaffolds must come out unchanged exactly once (their assembly is C09's business), every other scaffold in the primary output, nothing else anywhere."
 CHECK.rule += ' Unpainted: output scaffold order == input order (inputs are listed in natural name order). Painted maps also with the autosome prefixes S and Scaffold_ (which Pretext scaffold names begin with).'
+CHECK.rule += ' Second scaffolds that are a further piece of the first scaffold\'s first contig (one sequence name in two scaffolds).'
